@@ -285,6 +285,12 @@ func (m *Model) binaryArith(n *Node, next emitFn) *merr {
 		return err
 	}
 	if len(l) != 1 {
+		// whether the right operand is still evaluated (PostgreSQL evaluates both operands before
+		// it checks either) is not fixed by the statements: when it would raise a non-suppressible
+		// error, which of the two errors surfaces is left open
+		if _, rerr := m.collectUnwrapped(n.B, true); rerr != nil && (rerr.hard || rerr.dontCare) {
+			return openErr("left operand of %s is not a singleton and the right operand raises a non-suppressible error", n.S)
+		}
 		return suppErr("left operand of %s is not a single numeric value", n.S)
 	}
 	r, err := m.collectUnwrapped(n.B, true)
